@@ -39,7 +39,7 @@ def describe(tier):
         "rule": f"H: {len(CORPUS)} scenarios (incl. a duplicated Initial, a Version Negotiation datagram, TCP retransmissions) x (every iteration order of the scenario's connection-ID set realised by a hash seed in 0..{S - 1}, "
                 "one witness seed each) x cwd in {/, temp, /repo} x 9 environments (incl. PYTHONOPTIMIZE and non-UTF-8 stdout encodings), through `python -m tlexport.main` in fresh "
                 "processes, plus two runs with -a; R: all ordered pairs (A,B) of corpus entries, without and with -a, run back to back in one interpreter without state "
-                "restoration. non-trivial: a run whose output holds data and equals the reference hash; distinct = distinct "
+                "restoration, and pairs whose two runs use different options (-m, -c, -a, -p, -g). non-trivial: a run whose output holds data and equals the reference hash; distinct = distinct "
                 "(scenario, seed/cwd/env) or pair",
         "exhaustive": True,
         "bounds": {"hash_seeds_scanned": S, "corpus": CORPUS},
@@ -243,6 +243,26 @@ def run_case(case):
                               "detail": f"run({a}); run({b}) wrote {len(r2.out or b'')} bytes, a fresh run({b}) writes {len(fresh.out or b'')}"})
             else:
                 nontriv.append(engine.jhash(sig))
+        # the two runs of a pair use DIFFERENT options: nothing an option switched on or collected may survive into the next run
+        if a not in ABORTING:
+            for b in ("mixed", "quic_two", "tls12"):
+                db, kb, _ = scenario(b, seed)
+                for xa, xb in ((("-m", "443:9000"), ("-m",)), ((), ("-c",)), (("-c",), ()), (("-a",), ()), (("-p", "8443", "-m", "8443:1"), ()),
+                               (("-g",), ("-m", "44330:7"))):
+                    fresh = harness.run_tlexport(db, kb, xb)
+                    harness.reset_state()
+                    harness.run_tlexport(da, ka, xa, reset=False)
+                    r2 = harness.run_tlexport(db, kb, xb, reset=False, keep_output=True)
+                    harness.reset_state()
+                    n += 3
+                    sig = {"first": a, "second": b, "args_first": " ".join(xa), "args_second": " ".join(xb)}
+                    if not r2.ok:
+                        fails.append({"kind": "second_run_failed", "sig": sig, "detail": r2.status + r2.detail[-300:]})
+                    elif r2.out != fresh.out:
+                        fails.append({"kind": "second_run_differs_from_fresh_run", "sig": sig,
+                                      "detail": f"run({a} {' '.join(xa)}); run({b} {' '.join(xb)}) wrote {len(r2.out or b'')} bytes, a fresh run writes {len(fresh.out or b'')}"})
+                    else:
+                        nontriv.append(engine.jhash(sig))
         sample = {"pairs_with_first": a, "seconds": CORPUS}
         r = {"n": n, "fails": fails, "nontrivial": nontriv, "outcomes": []}
     if sample:
